@@ -106,10 +106,12 @@ public:
         auto x = dvec("pt" + std::to_string(k), mon::S().nvars);
         ClearWarning(GetSolCheckWarningKey(false)); ClearWarning(GetSolCheckWarningKey(true));
         std::string err;
-        try { GetValuePresolver().PostsolveSolution({ x, pre::ValueMapDbl{}, GetObjectiveValues(), (void*)0 }); }
+        std::vector<double> ov = scr("objvals" + std::to_string(k)) ? dvec("objvals" + std::to_string(k), 0) : dvec("objvals", mon::S().nobjs);
+        try { GetValuePresolver().PostsolveSolution({ x, pre::ValueMapDbl{}, ov, (void*)0 }); }
         catch (const std::exception& e) { err = e.what(); }
         const auto& w0 = GetWarning(GetSolCheckWarningKey(false)); const auto& w1 = GetWarning(GetSolCheckWarningKey(true));
-        mon::S().emit("{\"ev\":\"solcheck\",\"k\":" + std::to_string(k) + ",\"n0\":" + std::to_string(w0.first) + ",\"w0\":\"" + mon::jesc(w0.second) + "\",\"n1\":" + std::to_string(w1.first) + ",\"w1\":\"" + mon::jesc(w1.second) + "\",\"err\":\"" + mon::jesc(err) + "\"}");
+        std::string ab = GetWarning("Solution check aborted").second; ClearWarning("Solution check aborted");
+        mon::S().emit("{\"ev\":\"solcheck\",\"k\":" + std::to_string(k) + ",\"aborted\":\"" + mon::jesc(ab) + "\",\"n0\":" + std::to_string(w0.first) + ",\"w0\":\"" + mon::jesc(w0.second) + "\",\"n1\":" + std::to_string(w1.first) + ",\"w1\":\"" + mon::jesc(w1.second) + "\",\"err\":\"" + mon::jesc(err) + "\"}");
       }
       ClearWarning(GetSolCheckWarningKey(false)); ClearWarning(GetSolCheckWarningKey(true));
     }
